@@ -92,6 +92,67 @@ func VerifC20Archive(n, e, kind, stride int) {
 	verifrt.Assert(len(dst.mutations) == 0, "nothing is written to the target database when the archive is rejected")
 }
 
+// VerifC20ExtraEntries: a well-formed encrypted archive that contains every file of a
+// valid dump collection plus one more regular file with a harmless looking name, before or
+// after them. The archive is not what was produced: unpacking fails and leaves nothing.
+func VerifC20ExtraEntries(n, e int) {
+	dir := verifWorkDir()
+	defer verifCleanupWorkDir(dir)
+	ctx := context.Background()
+	public, private, _ := verifArchiveKeys()
+	src, targets := verifFixedSource(n, e, 1)
+	dump := filepath.Join(dir, "dump")
+	options := DefaultDumpOptions(dump)
+	options.Compression = CompressionNone
+	options.BatchSize = 2
+	options.ShardSize = 2
+	if _, err := Dump(ctx, src, "test", targets, options); err != nil {
+		verifrt.Fail("the dump that is to be archived failed")
+	}
+	manifest, err := readManifest(dump)
+	if err != nil {
+		verifrt.Fail("the dump has no readable manifest")
+	}
+	extraNames := []string{"evil.sh", ".ssh/authorized_keys", "graphs/alpha/nodes-999999.jsonl", "graphs/other/edges-000001.jsonl", "manifest.json.bak"}
+	extra := extraNames[verifrt.NondetChoice("extra entry", len(extraNames))]
+	first := verifrt.NondetChoice("extra entry comes first", 2) == 1
+
+	var archive bytes.Buffer
+	encrypted, err := NewEncryptedArchiveWriter(&archive, public)
+	if err != nil {
+		verifrt.Fail("cannot create the archive writer")
+	}
+	tarWriter := tar.NewWriter(encrypted)
+	write := func(name string, body []byte) {
+		header := &tar.Header{Typeflag: tar.TypeReg, Name: name, Mode: 0o600, Size: int64(len(body)), Format: tar.FormatUSTAR}
+		if tarWriter.WriteHeader(header) != nil {
+			verifrt.Fail("cannot write a tar header")
+		}
+		tarWriter.Write(body)
+	}
+	if first {
+		write(extra, []byte("#!/bin/sh\n"))
+	}
+	for _, name := range append([]string{manifestFileName}, verifFragmentPaths(manifest)...) {
+		body, ok := verifReadFile(filepath.Join(dump, filepath.FromSlash(name)))
+		if !ok {
+			verifrt.Fail("cannot read a dump file")
+		}
+		write(name, body)
+	}
+	if !first {
+		write(extra, []byte("#!/bin/sh\n"))
+	}
+	if tarWriter.Close() != nil || encrypted.Close() != nil {
+		verifrt.Fail("cannot finish the archive")
+	}
+	out := filepath.Join(dir, "out")
+	err = Unpack(UnpackOptions{ArchiveReader: bytes.NewReader(archive.Bytes()), ArchiveIdentity: private, OutputDir: out})
+	verifrt.Assert(err != nil, "an archive with entries the manifest does not list is rejected")
+	verifrt.Assert(!verifExists(out), "a rejected archive leaves no output directory behind")
+	verifrt.Assert(len(verifOutside(dir, "dump")) == 0, "a rejected archive leaves no staging directory or other file behind")
+}
+
 type verifTarEntry struct {
 	name     string
 	typeflag byte
